@@ -2,6 +2,7 @@ package wasi_snapshot_preview1
 
 import (
 	"context"
+	"math"
 	"time"
 
 	"github.com/tetratelabs/wazero/api"
@@ -60,6 +61,12 @@ func pollOneoffFn(_ context.Context, mod api.Module, params []uint64) sys.Errno 
 	}
 
 	mem := mod.Memory()
+
+	// The byte counts below are 32-bit products: a count whose product wraps
+	// cannot fit in a 32-bit memory either.
+	if uint64(nsubscriptions)*48 > math.MaxUint32 {
+		return sys.EFAULT
+	}
 
 	// Ensure capacity prior to the read loop to reduce error handling.
 	inBuf, ok := mem.Read(in, nsubscriptions*48)
